@@ -529,12 +529,18 @@ func genMul(r *hx.RNG, l hx.Limits) *opCase {
 		// operands (y, or x = y, comes from a division, a square root): which side of T - a boundary, a tie - the product is
 		// on is decided by the lowest words of both operands
 		pp := int(minI64(r.Prec(0, l), 300))
+		if r.Chance(15) {
+			pp = r.Range(300, 1500) // precisions at which long multiplication and squaring change algorithm
+		}
 		k.p = int64(pp)
 		T := hx.CoefOf(r.RoundAimed(pp))
 		dT := int(oracle.Digits(T))
 		n1 := r.Range(20, 400)
 		if r.Chance(25) {
 			n1 = r.Range(400, 1500)
+		}
+		if pp > 300 {
+			n1 = r.Range(pp+40, 2*pp+400)
 		}
 		if r.Chance(30) {
 			sh := 2*n1 - dT
